@@ -91,8 +91,12 @@ def gen_line(r, ident, now):
             toks.append(r.pick(UNI))
         elif k == 'ident':
             key = r.pick(['host', 'user', 'cwd', 'home', 'tmpdir', 'ip',
-                          'hostword', 'userword'])
-            if key == 'hostword':
+                          'hostword', 'userword', 'cwd+tmpdir', 'tmpdir'])
+            if key == 'cwd+tmpdir':
+                # one line naming both the working and the scratch directory
+                toks.append('copying %s/in.txt to %s/out.txt'
+                            % (ident['cwd'], ident['tmpdir']))
+            elif key == 'hostword':
                 toks.append('x' + ident['host'] + 'y')
             elif key == 'userword':
                 toks.append(ident['user'] + 's')
@@ -164,6 +168,12 @@ def gen_program(r, ident, now):
             else:
                 name = stem + r.pick(['2', '1', '3']) + dot + ext1
             binary = False
+        if any(name.endswith(x) or (x + '2') in name or (x + '3') in name
+               for x in ('.png', '.gif', '.bin')) and not binary:
+            # a sibling name derived from a binary file's name: keep the
+            # content binary as well (a picture does not quote $TMPDIR)
+            binary = True
+            ext = '.png' if '.png' in name else '.bin'
         if layout == 'twodirs':
             # same basename in different directories (the reference
             # directory is flat, so the names collide there)
